@@ -10,7 +10,7 @@
 //   ledger       per-token creation / destruction accounting (C03, C05, C06, C09, C12)
 //
 // Every assertion message starts with the ids of the properties it serves: "[C01,C02] ...".
-#![allow(static_mut_refs, dead_code, unused_variables, unused_mut, unused_imports, unused_qualifications, unexpected_cfgs, clippy::all)]
+#![allow(unreachable_pub, static_mut_refs, dead_code, unused_variables, unused_mut, unused_imports, unused_qualifications, unexpected_cfgs, clippy::all)]
 
 use crate::*;
 use core::mem::MaybeUninit;
@@ -65,9 +65,18 @@ pub(crate) mod nd {
 }
 
 // ---------------------------------------------------------------------------------------------
+// loop-free helpers: every helper below is straight-line code (macro-unrolled with constant
+// indices), so the #[kani::unwind] bound of a harness only has to cover the loops of the crate
+// itself and the harness' own script loop.
+
+macro_rules! unroll8 { ($i:ident, $body:block) => { { let $i: usize = 0; $body } { let $i: usize = 1; $body } { let $i: usize = 2; $body } { let $i: usize = 3; $body } { let $i: usize = 4; $body } { let $i: usize = 5; $body } { let $i: usize = 6; $body } { let $i: usize = 7; $body } } }
+macro_rules! unroll16 { ($i:ident, $body:block) => { { let $i: usize = 0; $body } { let $i: usize = 1; $body } { let $i: usize = 2; $body } { let $i: usize = 3; $body } { let $i: usize = 4; $body } { let $i: usize = 5; $body } { let $i: usize = 6; $body } { let $i: usize = 7; $body } { let $i: usize = 8; $body } { let $i: usize = 9; $body } { let $i: usize = 10; $body } { let $i: usize = 11; $body } { let $i: usize = 12; $body } { let $i: usize = 13; $body } { let $i: usize = 14; $body } { let $i: usize = 15; $body } } }
+macro_rules! unroll32 { ($i:ident, $body:block) => { { let $i: usize = 0; $body } { let $i: usize = 1; $body } { let $i: usize = 2; $body } { let $i: usize = 3; $body } { let $i: usize = 4; $body } { let $i: usize = 5; $body } { let $i: usize = 6; $body } { let $i: usize = 7; $body } { let $i: usize = 8; $body } { let $i: usize = 9; $body } { let $i: usize = 10; $body } { let $i: usize = 11; $body } { let $i: usize = 12; $body } { let $i: usize = 13; $body } { let $i: usize = 14; $body } { let $i: usize = 15; $body } { let $i: usize = 16; $body } { let $i: usize = 17; $body } { let $i: usize = 18; $body } { let $i: usize = 19; $body } { let $i: usize = 20; $body } { let $i: usize = 21; $body } { let $i: usize = 22; $body } { let $i: usize = 23; $body } { let $i: usize = 24; $body } { let $i: usize = 25; $body } { let $i: usize = 26; $body } { let $i: usize = 27; $body } { let $i: usize = 28; $body } { let $i: usize = 29; $body } { let $i: usize = 30; $body } { let $i: usize = 31; $body } } }
+
+// ---------------------------------------------------------------------------------------------
 // abstract sequence
 
-pub(crate) const CAP: usize = 24;
+pub(crate) const CAP: usize = 16;
 
 #[derive(Clone, Copy)]
 pub(crate) struct Seq { pub a: [u8; CAP], pub len: usize }
@@ -75,12 +84,12 @@ pub(crate) struct Seq { pub a: [u8; CAP], pub len: usize }
 impl Seq {
     pub fn new() -> Seq { Seq { a: [0; CAP], len: 0 } }
     pub fn get(&self, i: usize) -> Option<u8> { if i < self.len { Some(self.a[i]) } else { None } }
-    pub fn push(&mut self, x: u8) { assert!(self.len < CAP); self.a[self.len] = x; self.len += 1; }
+    pub fn push(&mut self, x: u8) { assert!(self.len < CAP, "model sequence capacity exceeded"); self.a[self.len] = x; self.len += 1; }
     pub fn pop_back(&mut self) -> Option<u8> { if self.len == 0 { None } else { self.len -= 1; Some(self.a[self.len]) } }
     pub fn pop_front(&mut self) -> Option<u8> { self.remove(0) }
     pub fn push_front(&mut self, x: u8) { self.insert(0, x) }
     pub fn insert(&mut self, at: usize, x: u8) {
-        assert!(self.len < CAP && at <= self.len);
+        assert!(self.len < CAP && at <= self.len, "model sequence capacity exceeded");
         let mut i = self.len;
         while i > at { self.a[i] = self.a[i - 1]; i -= 1; }
         self.a[at] = x; self.len += 1;
@@ -94,16 +103,25 @@ impl Seq {
         Some(x)
     }
     /// keep only the last n elements
-    pub fn keep_last(&mut self, n: usize) { while self.len > n { self.remove(0); } }
+    pub fn keep_last(&mut self, n: usize) {
+        if self.len > n {
+            let d = self.len - n;
+            let old = self.a;
+            unroll16!(i, { if i < n { self.a[i] = old[(i + d) % CAP]; } });
+            self.len = n;
+        }
+    }
     pub fn keep_first(&mut self, n: usize) { if self.len > n { self.len = n; } }
     pub fn eq(&self, o: &Seq) -> bool {
         if self.len != o.len { return false; }
-        let mut i = 0; let mut ok = true;
+        let mut ok = true;
+        let mut i = 0;
         while i < self.len { if self.a[i] != o.a[i] { ok = false; } i += 1; }
         ok
     }
-    pub fn contains(&self, x: u8) -> bool { let mut i = 0; let mut f = false; while i < self.len { if self.a[i] == x { f = true; } i += 1; } f }
+    pub fn contains(&self, x: u8) -> bool { let mut f = false; unroll16!(i, { if i < self.len && self.a[i] == x { f = true; } }); f }
     pub fn swap(&mut self, i: usize, j: usize) { let t = self.a[i]; self.a[i] = self.a[j]; self.a[j] = t; }
+    pub fn append(&mut self, o: &Seq) { unroll16!(i, { if i < o.len { self.push(o.a[i]); } }); }
     /// abstract capped deque: append at the back of a buffer of capacity n
     pub fn push_back_capped(&mut self, x: u8, n: usize) -> Option<u8> {
         if n == 0 { return Some(x); }
@@ -120,12 +138,12 @@ impl Seq {
 // ---------------------------------------------------------------------------------------------
 // ledger tokens
 
-pub(crate) const MAXID: usize = 64;
+pub(crate) const MAXID: usize = 32;
 pub(crate) static mut DROPS: [u8; MAXID] = [0; MAXID];
 pub(crate) static mut PARENT: [u8; MAXID] = [255; MAXID];
 pub(crate) static mut NEXT: usize = 0;
 /// watched buffer (destructor / callback preconditions, C05 C06)
-static mut W_ITEMS: usize = 0;
+static mut W_ITEMS: *const Tok = core::ptr::null();
 static mut W_N: usize = 0;
 static mut W_START: *const usize = core::ptr::null();
 static mut W_SIZE: *const usize = core::ptr::null();
@@ -138,8 +156,8 @@ pub(crate) static mut DROP_ENTRIES: usize = 0;
 
 pub(crate) fn ledger_reset() {
     unsafe {
-        DROPS = [0; MAXID]; PARENT = [255; MAXID]; NEXT = 0; CALLBACKS = 0; DROP_ENTRIES = 0;
-        W_N = 0; W_ITEMS = 0; W_START = core::ptr::null(); W_SIZE = core::ptr::null();
+        DROPS = [0; MAXID]; PARENT = [255; MAXID]; NEXT = 0; CALLBACKS = 0; DROP_ENTRIES = 0; WATCH_ON = false;
+        W_N = 0; W_ITEMS = core::ptr::null(); W_START = core::ptr::null(); W_SIZE = core::ptr::null();
     }
 }
 
@@ -163,12 +181,25 @@ fn watched_window_ok() -> bool {
         let mut ok = true;
         let mut i = 0;
         while i < size {
-            let p = (start + i) % W_N;   // W_N is small here; no overflow
-            let id = *((W_ITEMS + p * core::mem::size_of::<Tok>()) as *const u8) as usize;
+            let mut p = start + i;
+            if p >= W_N { p -= W_N; }
+            let id = (*W_ITEMS.add(p)).id as usize;
             if id >= MAXID || DROPS[id] != 0 { ok = false; }
             i += 1;
         }
         ok
+    }
+}
+
+/// logical index of `t` inside the watched array (usize::MAX if it is not a slot of it)
+fn watched_rel(t: *const Tok) -> usize {
+    unsafe {
+        let off = (t as usize).wrapping_sub(W_ITEMS as usize);
+        if off < W_N * core::mem::size_of::<Tok>() {
+            let p = off / core::mem::size_of::<Tok>();
+            let start = *W_START;
+            if p >= start { p - start } else { p + W_N - start }
+        } else { usize::MAX }
     }
 }
 
@@ -183,14 +214,8 @@ impl Drop for Tok {
                 // destructor precondition (C05): the element being destroyed is outside the committed
                 // window of the watched buffer, and that window is valid and all-live, so that a panic
                 // raised by this destructor leaves a valid buffer and no second drop.
-                let addr = self as *const Tok as usize;
-                let off = addr.wrapping_sub(W_ITEMS);
-                if off < W_N * core::mem::size_of::<Tok>() {
-                    let p = off / core::mem::size_of::<Tok>();
-                    let start = *W_START;
-                    let rel = if p >= start { p - start } else { p + W_N - start };
-                    assert!(rel >= *W_SIZE, "[C05] destructor runs on an element that is still inside the buffer's committed window");
-                }
+                let rel = watched_rel(self as *const Tok);
+                assert!(rel == usize::MAX || rel >= *W_SIZE, "[C05] destructor runs on an element that is still inside the buffer's committed window");
                 assert!(watched_window_ok(), "[C05] buffer window is not a valid all-live sequence at destructor entry");
             }
             DROP_ENTRIES += 1;
@@ -225,9 +250,14 @@ impl PartialEq for Tok {
     fn eq(&self, o: &Tok) -> bool { callback_entry(); self.id == o.id }
 }
 
+/// the destructor / callback preconditions (C05, C06) are only armed in the *_w harness variants
+pub(crate) static mut WATCH_ON: bool = false;
+pub(crate) fn enable_watch() { unsafe { WATCH_ON = true; } }
+
 pub(crate) fn watch<const N: usize>(b: &CircularBuffer<N, Tok>) {
     unsafe {
-        W_ITEMS = b.items.as_ptr() as usize;
+        if !WATCH_ON { return; }
+        W_ITEMS = b.items.as_ptr() as *const Tok;
         W_N = N;
         W_START = &b.start;
         W_SIZE = &b.size;
@@ -259,10 +289,7 @@ pub(crate) fn any_tokbuf<const N: usize>() -> CircularBuffer<N, Tok> {
     b.start = start;
     b.size = size;
     let mut i = 0;
-    while i < size {
-        b.items[phys(start, i, N)].write(Tok::fresh());
-        i += 1;
-    }
+    while i < size { b.items[phys(start, i, N)].write(Tok::fresh()); i += 1; }
     b
 }
 
@@ -276,10 +303,7 @@ pub(crate) fn any_u8buf<const N: usize>() -> CircularBuffer<N, u8> {
     b.start = start;
     b.size = size;
     let mut i = 0;
-    while i < size {
-        b.items[phys(start, i, N)].write(nd::any_u8());
-        i += 1;
-    }
+    while i < size { b.items[phys(start, i, N)].write(nd::any_u8()); i += 1; }
     b
 }
 
@@ -287,11 +311,7 @@ pub(crate) fn ids_of<const N: usize>(b: &CircularBuffer<N, Tok>) -> Seq {
     let mut s = Seq::new();
     assert!(wf(b), "[C01,C03,C04] representation invariant broken (start/size out of range)");
     let mut i = 0;
-    while i < b.size {
-        let id = unsafe { (*b.items[phys(b.start, i, N)].as_ptr()).id };
-        s.push(id);
-        i += 1;
-    }
+    while i < b.size { s.push(unsafe { (*b.items[phys(b.start, i, N)].as_ptr()).id }); i += 1; }
     s
 }
 
@@ -299,22 +319,8 @@ pub(crate) fn bytes_of<const N: usize>(b: &CircularBuffer<N, u8>) -> Seq {
     let mut s = Seq::new();
     assert!(wf(b), "[C01,C14] representation invariant broken (start/size out of range)");
     let mut i = 0;
-    while i < b.size {
-        s.push(unsafe { *b.items[phys(b.start, i, N)].as_ptr() });
-        i += 1;
-    }
+    while i < b.size { s.push(unsafe { *b.items[phys(b.start, i, N)].as_ptr() }); i += 1; }
     s
-}
-
-/// physical slot of token `id` in the buffer, or usize::MAX
-pub(crate) fn slot_of<const N: usize>(b: &CircularBuffer<N, Tok>, id: u8) -> usize {
-    let mut i = 0; let mut r = usize::MAX;
-    while i < b.size {
-        let p = phys(b.start, i, N);
-        if unsafe { (*b.items[p].as_ptr()).id } == id { r = p; }
-        i += 1;
-    }
-    r
 }
 
 #[derive(Clone, Copy)]
@@ -333,31 +339,21 @@ pub(crate) fn slots_of<const N: usize>(b: &CircularBuffer<N, Tok>) -> Slots {
 }
 
 /// number of elements present in both states whose physical slot differs (C20)
-pub(crate) fn relocated(old: &Slots, new: &Slots, upto: usize) -> usize {
-    let mut n = 0; let mut id = 0;
-    while id < upto {
-        if old.s[id] != usize::MAX && new.s[id] != usize::MAX && old.s[id] != new.s[id] { n += 1; }
-        id += 1;
-    }
+pub(crate) fn relocated(old: &Slots, new: &Slots, _upto: usize) -> usize {
+    let mut n = 0;
+    unroll32!(id, { if old.s[id] != usize::MAX && new.s[id] != usize::MAX && old.s[id] != new.s[id] { n += 1; } });
     n
 }
 
 /// ledger conservation (C03): every token created so far is in exactly one place
 /// in_buf: logical contents of the buffer(s); held: tokens owned by the harness (returned values)
 pub(crate) fn ledger_ok(in_buf: &Seq, held: &Seq) -> bool {
+    let mut cnt = [0u8; MAXID];
     let mut ok = true;
-    let mut id = 0;
+    unroll16!(i, { if i < in_buf.len { let id = in_buf.a[i] as usize; if id < MAXID { cnt[id] += 1; } else { ok = false; } } });
+    unroll16!(j, { if j < held.len { let id = held.a[j] as usize; if id < MAXID { cnt[id] += 1; } else { ok = false; } } });
     let total = next_id();
-    while id < total {
-        let mut places = 0usize;
-        let mut i = 0;
-        while i < in_buf.len { if in_buf.a[i] as usize == id { places += 1; } i += 1; }
-        let mut j = 0;
-        while j < held.len { if held.a[j] as usize == id { places += 1; } j += 1; }
-        places += drops(id) as usize;
-        if places != 1 { ok = false; }
-        id += 1;
-    }
+    unroll32!(id, { if id < total && cnt[id] as usize + drops(id) as usize != 1 { ok = false; } });
     ok
 }
 
@@ -441,6 +437,22 @@ pub fn replay_main() {
         }
         choices = v;
         if runs >= max_runs { println!("{{\"status\":\"budget\",\"runs\":{}}}", runs); std::process::exit(0); }
+    }
+}
+
+/// Model of core::slice::rotate::ptr_rotate used as a Kani stub (std's three rotation algorithms
+/// with symbolic lengths exhaust CBMC; they are not the code under test).  Rotates
+/// [mid-left, mid+right) so that the element at `mid` becomes the first one.
+pub(crate) unsafe fn ptr_rotate_model<T>(left: usize, mid: *mut T, right: usize) {
+    let base = mid.sub(left);
+    let n = left + right;
+    let mut k = 0;
+    while k < left {
+        let tmp = core::ptr::read(base);
+        let mut i = 0;
+        while i + 1 < n { core::ptr::copy(base.add(i + 1), base.add(i), 1); i += 1; }
+        core::ptr::write(base.add(n - 1), tmp);
+        k += 1;
     }
 }
 
